@@ -12,6 +12,8 @@ From LI Require Import Runtime.Context.
 From LI Require Import Runtime.ContextProofs.
 From LI Require Import Runtime.ContextAcc.
 From LI Require Import Runtime.ContextAccProofs.
+From LI Require Import Runtime.Provider.
+From LI Require Import Runtime.ProviderProofs.
 Open Scope N_scope.
 
 (** forward simulation: for every initial locale, every operation list and every placement of flushes, the arena
@@ -140,3 +142,33 @@ Theorem C16_decode_sound : forall t c cs r,
   (N.to_nat c < length t)%nat -> (length t <= 99)%nat ->
   decode (Some t) (c :: cs) r = c <-> tbl_get t c = r.
 Proof. exact decode_iff. Qed.
+
+(** ** Component-level providers (Runtime/Provider.v): a forest of lookups (`use_i18n()` in a component) and
+    `<I18nSubContextProvider>`s rendered under an owner.  [rc_forest false] is the owner-arena model of
+    `run_as_children` (child owner, sub-context provided at the child); [rl_forest] is lexical scoping. *)
+
+(** for every forest — any nesting, any number of sibling providers, lookups before, inside and after them — rendered
+    under any owner [o] whose lookup gives [cur]: every lookup denotes the context of the innermost enclosing provider,
+    else [cur]; every owner that existed before (the one the siblings after a provider run under, everything outside)
+    still looks up what it did; and a lookup repeated later under a probe's owner (an accessor evaluating `use_i18n()`
+    when rendered) gives what the probe got *)
+Theorem C16_provider_scoping : forall f o st cur,
+  OInv st -> (o < os_n st)%nat -> os_lookup st o = Some cur ->
+  let res := rc_forest false f o st in
+  map lex_of (snd res) = map Some (snd (rl_forest f cur (os_nctx st))) /\
+  (forall ow, (ow < os_n st)%nat -> os_lookup (fst res) ow = os_lookup st ow) /\
+  (forall ow r, In (CProbe ow r) (snd res) -> os_lookup (fst res) ow = r).
+Proof. exact provider_scoping. Qed.
+
+(** the operations a forest is checked as ([compile_forest]: provider = [ONewSub] below the current context, lookup =
+    a new handle on the current context) create one handle per lookup position, on the lexically denoted context, and
+    leave the existing handles alone — so C16_last_set / C16_isolation speak about the handles components obtain *)
+Theorem C16_provider_handles : forall f a curh,
+  forest_wf (a_nus a) f = true -> (curh < a_nh a)%nat -> (a_hctx a curh < a_nctx a)%nat ->
+  let cur := a_hctx a curh in
+  let a' := a_run a (snd (compile_forest f curh cur (a_nh a) (a_nctx a))) in
+  let ps := probes (snd (rl_forest f cur (a_nctx a))) in
+  a_nh a' = (a_nh a + length ps)%nat /\
+  (forall k, (k < length ps)%nat -> a_hctx a' (a_nh a + k) = nth k ps O) /\
+  (forall h, (h < a_nh a)%nat -> a_hctx a' h = a_hctx a h).
+Proof. exact compile_denotes. Qed.
